@@ -36,6 +36,11 @@ class C08World(WalletWorld):
         """Several accounts: the same view per account (what carries the totals is the view of all accounts together),
         plus what the argument-less calls report (they speak for the default account)."""
         v = {'balance': 0, 'utxos': [], 'keys': [], 'wkeys': [], 'accounts': {}}
+        # the argument-less call first: the per-account calls below refresh the cached totals it reads
+        ok, b = self.observe(lambda: h.balance())
+        if not ok:
+            return {'error': 'balance(): %s: %s' % (type(b).__name__, b)}
+        v['default_balance'] = b
         for a in wi.account_ids:
             ok, b = self.observe(lambda: h.balance(account_id=a))
             if not ok:
@@ -59,10 +64,6 @@ class C08World(WalletWorld):
             v['utxos'] += us
             v['keys'] += ks
             v['wkeys'] += wk
-        ok, b = self.observe(lambda: h.balance())
-        if not ok:
-            return {'error': 'balance(): %s: %s' % (type(b).__name__, b)}
-        v['default_balance'] = b
         return v
 
     def check_view(self, wi, v, handle):
@@ -181,6 +182,44 @@ class C08World(WalletWorld):
                             (wi.name, txid[:16], raw if ok else repr(raw), c.raw.hex()))
             w.probe('reload_checked')
 
+    def check_reload_incoming(self, wi, h, handle):
+        """Transactions the wallet stored from the network (not its own sends): once stored completely they reload with
+        the id, version, locktime, inputs and outputs of the chain's transaction."""
+        w = self.w
+        ok, rows = self.observe(lambda: [(t.txid, t.status) for t in h.transactions(include_new=True)])
+        if not ok:
+            return
+        n = 0
+        for txid, status in rows:
+            c = self.chain.txs.get(txid)
+            if c is None or txid in wi.sent or n >= 6:
+                continue
+            ok, t = self.observe(lambda: h.transaction(txid))
+            if not ok or t is None:
+                continue
+            if len(t.inputs) != len(c.tx.vin) or len(t.outputs) != len(c.tx.vout):
+                w.probe('stored_incomplete')        # utxo_add / utxos_update keep only the outputs they were told about
+                continue
+            n += 1
+            sig = self.sig(wi, handle, origin='network')
+            if t.version_int != c.tx.version:
+                w.violation('reload_mismatch', dict(sig, field='version'),
+                            '%s: %s version reloads as %r, on chain %r' % (wi.name, txid[:16], t.version_int, c.tx.version))
+            if (t.locktime or 0) != c.tx.locktime:
+                w.violation('reload_mismatch', dict(sig, field='locktime'),
+                            '%s: %s locktime reloads as %r, on chain %r' % (wi.name, txid[:16], t.locktime, c.tx.locktime))
+            ins = [(i.prev_txid.hex(), i.output_n_int, i.sequence) for i in t.inputs]
+            want = [(v.prev_txid_hex(), v.vout, v.sequence) for v in c.tx.vin]
+            if ins != want:
+                w.violation('reload_mismatch', dict(sig, field='inputs'),
+                            '%s: %s inputs reload as %s, on chain %s' % (wi.name, txid[:16], ins, want))
+            outs = sorted([(o.output_n, o.value, bytes(o.lock_script).hex()) for o in t.outputs])
+            wanto = [(k, o.value, o.script_pubkey.hex()) for k, o in enumerate(c.tx.vout)]
+            if outs != wanto:
+                w.violation('reload_mismatch', dict(sig, field='outputs'),
+                            '%s: %s outputs reload as %s, on chain %s' % (wi.name, txid[:16], outs, wanto))
+            w.probe('reload_incoming_checked')
+
     def check_wallet(self, wi, fresh):
         w = self.w
         h = self.H(wi)
@@ -228,6 +267,7 @@ class C08World(WalletWorld):
                                 '%s: live balance %r / %d utxos, reopened balance %r / %d utxos' %
                                 (wi.name, v['balance'], len(v['utxos']), vf['balance'], len(vf['utxos'])))
             self.check_reload(wi, f, 'fresh')
+            self.check_reload_incoming(wi, f, 'fresh')
             self.check_select_inputs(wi, f, 'fresh')
             self.close_handle(f)
             w.probe('fresh_handle_checked')
